@@ -157,6 +157,10 @@ func c06(p *P) {
 	}
 
 	p.gHandleDecisionAlarm("C06.R1")
+	p.gProposalIsCandidate("C06.R5")
+	p.gBeginInstance("C06.R5")
+	p.gProposalProvenance("C06.R5")
+	r.Rule("C06.R5", "the participant can always use its own proposal: adopted values become candidates, late QUALITY extends candidates from the input, the start never fails on a long honest chain", 20)
 	// ---------------- R2 / R3 (receiveOne)
 	if ro := p.fn("C06.R2", inst+"receiveOne"); ro != nil {
 		type carry struct {
